@@ -1,6 +1,7 @@
 """C04 — generic-interaction sampler: loop update, exit-leg heat bath, gate, offsets, pipeline."""
 from checks import big_scale
 from checks import extra_c04mass
+from checks import extra_c04lawloop
 from checks import kern, law_audits
 from checks import pure_fns
 from checks import full_step
@@ -158,6 +159,7 @@ def main(ck):
     law_audits.run(ck, groups=["generic"])   # law of the executable generic step (loops off) = kernels; C04 capstone
     api_cov.run(ck, "c04")   # otherwise unexercised public API, model-free oracles of this property
     scale_inv.run(ck, "c04")   # power-of-two unit change: identical trajectory, energies exactly scaled (model-free twin oracle)
+    extra_c04lawloop.run(ck)   # law of the executable loop update = loopKn; generic time step WITH loops: exact SSE defect, invariant when the open mass vanishes
     extra_c04mass.run(ck)   # row mass of the fuel-truncated loop kernel: sub-stochastic, exact closed+open accounting, limit kernel reversible
     big_scale.run(ck, "longloops")   # large-scale regime (>65536 bonds/ops/slots, release semantics): model-free oracles of the property statements
     return ck.finish(RULE)
